@@ -39,6 +39,13 @@
   attributes replaced): the k-th use equals the first use of a fresh object holding the current
   parameters (C15_history_fresh_twin), unfolding at any point uses the CURRENT parameters
   (C15_history_unfold_current, C15_history_folded_weights_current).
+
+  Strengthening round T15 (seed C15-8): §10 states `unfold_model` on the LIST `model.layers` with
+  the `trainable` attribute of every layer — clone from the configuration (arbitrary fresh
+  variables), then `_clone_weights` for EVERY pair: the returned layers are the expected ones for
+  every fresh initialisation and every assignment of the flags (frozen layers, a frozen model,
+  layers owning non-trainable variables only), and the model built from them over any DAG computes
+  the source model's function (C15_unfold_layers_spec, _trainable_irrelevant, _weights, _function).
 -/
 import QKV.Lemmas.Fold
 namespace QKV.Fold
@@ -745,5 +752,214 @@ example : (({ L := { exL with bias := none } } : Obj).step (fun _ => 1/2) (.assi
   decide +kernel
 example : (({ L := exL } : Obj).step (fun _ => 1/2) (.setWeights [[1], [3]])).2 = .done false := by
   decide +kernel
+
+/-! ### 10. `unfold_model` over `model.layers`: every layer's weights are transferred
+
+  Strengthening round (seed C15-8).  §4 talks about the network expression; here `unfold_model` is
+  the code's two passes over the LIST of layers — clone every layer from its configuration (fresh
+  variables `init`, arbitrary), then `_clone_weights` for every pair — and every layer carries its
+  `trainable` attribute.  The result is the expected unfolded layer list for EVERY fresh
+  initialisation and EVERY assignment of the trainable flags: frozen layers, a frozen model and
+  layers that own non-trainable variables only (`BatchNormalization(center=False, scale=False)`)
+  are transferred like all others. -/
+
+/-- one pair of the loop: whatever the clone was initialised with, after `_clone_weights` it is the
+    expected unfolded layer — all variables, trainable or not -/
+theorem C15_unfold_layer_transfer (rs : ℚ → ℚ) (init : List T) (l : MLayer) :
+    transferOne (fun _ => false) rs init l = l.unfolded rs := by
+  obtain ⟨op, tr⟩ := l
+  cases op with
+  | input => rfl
+  | conv P => rfl
+  | bn p ch => rfl
+  | folded L =>
+    simp only [transferOne, MLayer.unfolded, LayerOp.unfolded, LayerOp.cloneFresh, cloneWeights, Folded.unfold,
+      Bool.false_eq_true, if_false]
+    cases hw : L.foldedWeights rs with
+    | none => rfl
+    | some w => rfl
+  | un f => rfl
+  | bin f => rfl
+
+theorem transferFrom_eq (rs : ℚ → ℚ) (init : ℕ → List T) (i : ℕ) (ls : List MLayer) :
+    transferFrom (fun _ => false) rs init i ls = unfoldedLayers rs ls := by
+  induction ls generalizing i with
+  | nil => rfl
+  | cons l ls ih => simp only [transferFrom, unfoldedLayers, C15_unfold_layer_transfer, ih]
+
+/-- `unfold_model(m).layers` is the expected layer list (folded layers replaced by the plain layers
+    holding `get_folded_weights()`, every other layer with ALL its variables), for every fresh
+    initialisation of the clones -/
+theorem C15_unfold_layers_spec (rs : ℚ → ℚ) (init : ℕ → List T) (ls : List MLayer) :
+    unfoldLayers rs init ls = unfoldedLayers rs ls := transferFrom_eq rs init 0 ls
+
+/-- nothing of the fresh initialisation survives -/
+theorem C15_unfold_layers_init_irrelevant (rs : ℚ → ℚ) (init init' : ℕ → List T) (ls : List MLayer) :
+    unfoldLayers rs init ls = unfoldLayers rs init' ls := by
+  rw [C15_unfold_layers_spec, C15_unfold_layers_spec]
+
+theorem unfoldedLayers_ops (rs : ℚ → ℚ) (ls ks : List MLayer) (h : ls.map (·.op) = ks.map (·.op)) :
+    (unfoldedLayers rs ls).map (List.map (·.op)) = (unfoldedLayers rs ks).map (List.map (·.op)) := by
+  induction ls generalizing ks with
+  | nil => cases ks with
+    | nil => rfl
+    | cons k ks => simp at h
+  | cons l ls ih =>
+    cases ks with
+    | nil => simp at h
+    | cons k ks =>
+      simp only [List.map_cons, List.cons.injEq] at h
+      obtain ⟨h1, h2⟩ := h
+      have := ih ks h2
+      simp only [unfoldedLayers, MLayer.unfolded, h1]
+      cases hk : k.op.unfolded rs with
+      | none => rfl
+      | some o =>
+        simp only [Option.map_some, Option.bind_some]
+        cases ha : unfoldedLayers rs ls with
+        | none => cases hb : unfoldedLayers rs ks with
+          | none => rfl
+          | some b => simp [ha, hb] at this
+        | some a => cases hb : unfoldedLayers rs ks with
+          | none => simp [ha, hb] at this
+          | some b =>
+            simp only [ha, hb, Option.map_some, Option.some.injEq] at this
+            simp [this]
+
+/-- TRAINABILITY IS NOT PART OF WHAT IS TRANSFERRED: two models with the same layers and ANY two
+    assignments of the `trainable` flags (all trainable / some layers frozen / the whole model
+    frozen) unfold to the same layers with the same variables -/
+theorem C15_unfold_layers_trainable_irrelevant (rs : ℚ → ℚ) (init init' : ℕ → List T) (ls ks : List MLayer)
+    (h : ls.map (·.op) = ks.map (·.op)) :
+    (unfoldLayers rs init ls).map (List.map (·.op)) = (unfoldLayers rs init' ks).map (List.map (·.op)) := by
+  rw [C15_unfold_layers_spec, C15_unfold_layers_spec]; exact unfoldedLayers_ops rs ls ks h
+
+/-- … and the flags themselves are carried over (`trainable` is part of the configuration) -/
+theorem C15_unfold_layers_flags (rs : ℚ → ℚ) (init : ℕ → List T) (ls ls' : List MLayer)
+    (h : unfoldLayers rs init ls = some ls') : ls'.map (·.trainable) = ls.map (·.trainable) := by
+  rw [C15_unfold_layers_spec] at h
+  induction ls generalizing ls' with
+  | nil => simp only [unfoldedLayers, Option.some.injEq] at h; subst h; rfl
+  | cons l ls ih =>
+    simp only [unfoldedLayers, Option.bind_eq_some_iff, Option.map_eq_some_iff] at h
+    obtain ⟨l', hl, r, hr, rfl⟩ := h
+    simp only [MLayer.unfolded, Option.map_eq_some_iff] at hl
+    obtain ⟨o, _, rfl⟩ := hl
+    simp [ih r hr]
+
+/-- the unfolded layer list always exists -/
+theorem C15_unfold_layers_exists (rs : ℚ → ℚ) (init : ℕ → List T) (ls : List MLayer) :
+    (unfoldLayers rs init ls).isSome := by
+  rw [C15_unfold_layers_spec]
+  induction ls with
+  | nil => rfl
+  | cons l ls ih =>
+    obtain ⟨r, hr⟩ := Option.isSome_iff_exists.mp ih
+    obtain ⟨op, tr⟩ := l
+    cases op <;>
+      simp [unfoldedLayers, MLayer.unfolded, LayerOp.unfolded, hr, Folded.unfold, Folded.foldedWeights, foldedBias]
+
+theorem unfoldedLayers_pointwise (rs : ℚ → ℚ) (ls ls' : List MLayer) (h : unfoldedLayers rs ls = some ls') (i : ℕ) :
+    (opsOf ls i).unfolded rs = some (opsOf ls' i) := by
+  induction ls generalizing ls' i with
+  | nil => simp only [unfoldedLayers, Option.some.injEq] at h; subst h; simp [opsOf, LayerOp.unfolded]
+  | cons l ls ih =>
+    simp only [unfoldedLayers, Option.bind_eq_some_iff, Option.map_eq_some_iff] at h
+    obtain ⟨l', hl, r, hr, rfl⟩ := h
+    simp only [MLayer.unfolded, Option.map_eq_some_iff] at hl
+    obtain ⟨o, ho, rfl⟩ := hl
+    cases i with
+    | zero => simpa [opsOf] using ho
+    | succ j => simpa [opsOf] using ih r hr j
+
+/-- reading the network through the layer list: the expression of the unfolded layer list is the
+    unfolding (`Net.unfoldAll`, §4) of the expression of the source list, for every DAG -/
+theorem toNet_unfolded (rs : ℚ → ℚ) (g : Graph) (ops ops' : ℕ → LayerOp)
+    (h : ∀ i, (ops i).unfolded rs = some (ops' i)) (fuel i : ℕ) :
+    (toNet g ops fuel i).unfoldAll rs = some (toNet g ops' fuel i) := by
+  induction fuel generalizing i with
+  | zero => rfl
+  | succ fuel ih =>
+    have hi := h i
+    simp only [toNet]
+    cases ho : ops i with
+    | input => rw [ho] at hi; simp only [LayerOp.unfolded, Option.some.injEq] at hi; rw [← hi]; rfl
+    | conv P =>
+      rw [ho] at hi; simp only [LayerOp.unfolded, Option.some.injEq] at hi; rw [← hi]
+      simp only [Net.unfoldAll, ih, Option.map_some]
+    | bn p c =>
+      rw [ho] at hi; simp only [LayerOp.unfolded, Option.some.injEq] at hi; rw [← hi]
+      simp only [Net.unfoldAll, ih, Option.map_some]
+    | folded L =>
+      rw [ho] at hi; simp only [LayerOp.unfolded, Option.map_eq_some_iff] at hi
+      obtain ⟨P, hP, hi⟩ := hi
+      rw [← hi]
+      simp only [Net.unfoldAll, ih, hP, Option.map_some, Option.bind_some]
+    | un f =>
+      rw [ho] at hi; simp only [LayerOp.unfolded, Option.some.injEq] at hi; rw [← hi]
+      simp only [Net.unfoldAll, ih, Option.map_some]
+    | bin f =>
+      rw [ho] at hi; simp only [LayerOp.unfolded, Option.some.injEq] at hi; rw [← hi]
+      simp only [Net.unfoldAll, ih, Option.map_some, Option.bind_some]
+
+/-- THE FUNCTION: for every DAG `g` over the layer list, every output node, every fresh
+    initialisation and every assignment of the trainable flags, the model made of the layers that
+    `unfold_model` returns computes what the source model computes -/
+theorem C15_unfold_layers_function (rs : ℚ → ℚ) (x : T) (g : Graph) (init : ℕ → List T) (ls ls' : List MLayer)
+    (h : unfoldLayers rs init ls = some ls') (fuel out : ℕ) :
+    (toNet g (opsOf ls') fuel out).eval rs x = (toNet g (opsOf ls) fuel out).eval rs x := by
+  rw [C15_unfold_layers_spec] at h
+  exact C15_unfold_model rs x _ _ (toNet_unfolded rs g _ _ (unfoldedLayers_pointwise rs ls ls' h) fuel out)
+
+/-- every variable of every non-folded layer arrives unchanged, and a folded layer's clone holds
+    exactly `[folded kernel, folded bias]` -/
+theorem C15_unfold_layers_weights (rs : ℚ → ℚ) (init : ℕ → List T) (ls ls' : List MLayer)
+    (h : unfoldLayers rs init ls = some ls') (i : ℕ) :
+    (∀ L, opsOf ls i = .folded L →
+        ∃ w, L.foldedWeights rs = some w ∧ (opsOf ls' i).weights = [w.1, w.2]) ∧
+    ((∀ L, opsOf ls i ≠ .folded L) → (opsOf ls' i).weights = (opsOf ls i).weights) := by
+  rw [C15_unfold_layers_spec] at h
+  have hp := unfoldedLayers_pointwise rs ls ls' h i
+  constructor
+  · intro L hL
+    rw [hL] at hp
+    simp only [LayerOp.unfolded, Option.map_eq_some_iff] at hp
+    obtain ⟨P, hP, hp⟩ := hp
+    obtain ⟨hw, hb, _⟩ := C15_unfold_weights L rs P hP
+    refine ⟨_, hw, ?_⟩
+    rw [← hp]
+    cases hb' : P.bias with
+    | none => simp [hb'] at hb
+    | some b => simp [LayerOp.weights, hb']
+  · intro hne
+    cases ho : opsOf ls i with
+    | folded L => exact absurd ho (hne L)
+    | input => rw [ho] at hp; simp only [LayerOp.unfolded, Option.some.injEq] at hp; rw [← hp]
+    | conv P => rw [ho] at hp; simp only [LayerOp.unfolded, Option.some.injEq] at hp; rw [← hp]
+    | bn p c => rw [ho] at hp; simp only [LayerOp.unfolded, Option.some.injEq] at hp; rw [← hp]
+    | un f => rw [ho] at hp; simp only [LayerOp.unfolded, Option.some.injEq] at hp; rw [← hp]
+    | bin f => rw [ho] at hp; simp only [LayerOp.unfolded, Option.some.injEq] at hp; rw [← hp]
+
+/-- WHY A GUARD ON TRAINABILITY IS WRONG (the family of seed C15-8): a transfer loop that skips the
+    layers without TRAINABLE weights leaves a frozen layer's clone at its fresh initialisation — a
+    frozen 1×1 conv with kernel 2 / bias 1, clone initialised with kernel 7 / bias 0 — while the
+    loop as coded delivers kernel 2 / bias 1 whatever the flag says -/
+theorem C15_unfold_layers_trainable_guard_witness :
+    ((transferFrom (fun l => l.trainableWeights.isEmpty) (fun _ => 1/2) (fun _ => [[7], [0]]) 0
+        [{ op := .conv exPlain, trainable := false }]).map (List.map (·.op.weights)) = some [[[7], [0]]]) ∧
+    ((unfoldLayers (fun _ => 1/2) (fun _ => [[7], [0]])
+        [{ op := .conv exPlain, trainable := false }]).map (List.map (·.op.weights)) = some [[[2], [1]]]) ∧
+    ((transferFrom (fun l => l.trainableWeights.isEmpty) (fun _ => 1/2) (fun _ => [[7], [0]]) 0
+        [{ op := .conv exPlain, trainable := true }]).map (List.map (·.op.weights)) = some [[[2], [1]]]) := by
+  decide +kernel
+
+/-- non-vacuity: a frozen folded layer, an affine-free batch norm (non-trainable variables only)
+    and a frozen plain conv; clones initialised with 7s: the unfolded list holds the folded weights
+    ([4],[5]), the moving statistics ([1],[1]) and the conv's (2, 1) -/
+example : (unfoldLayers (fun _ => 1/2) (fun _ => [[7], [7], [7], [7]])
+      [{ op := .folded exL, trainable := false },
+       { op := .bn { exBN with gamma := none, beta := none } exPlain.cfg.chan },
+       { op := .conv exPlain, trainable := false }]).map (List.map (·.op.weights))
+    = some [[[4], [5]], [[1], [1]], [[2], [1]]] := by decide +kernel
 
 end QKV.Fold
